@@ -6,6 +6,8 @@
 -/
 import Caches.Lemmas.WTinyLfu
 import Caches.Props.WtSpec
+import Caches.Props.WtMachine
+import Caches.Lemmas.Reach
 import Caches.Properties.C07
 set_option linter.unusedSectionVars false
 set_option linter.unusedVariables false
@@ -168,4 +170,74 @@ theorem remove_keeps_estimator (c : WTinyLfu κ ν) (k : κ) : (c.remove k).1.es
 /-- non-vacuity: main full, candidate strictly less frequent than the victim ⇒ the candidate is handed back -/
 example : WtSpec.put ⟨[(3, 30)], [(2, 20)], [(1, 10)]⟩ 1 1 1 (fun a b => a == 3 && b == 2) 4 (40 : Nat) =
     (⟨[(4, 40)], [(2, 20)], [(1, 10)]⟩, .evicted 3 30) := by rfl
+/-! ### the other entry points, and every history -/
+
+/-- **`remove` = the policy** -/
+theorem remove_eq_spec (c : WTinyLfu κ ν) (k : κ) :
+    (view (c.remove k).1, (c.remove k).2.1) = WtSpec.remove (view c) k := by
+  unfold WTinyLfu.remove RawLru.remove WtSpec.remove view
+  cases hw : find k c.window.items with
+  | some v => simp
+  | none =>
+    have := C07.remove_eq_spec c.main k
+    simp only [← this]
+
+/-- **`peek_mut` (+ write) = the policy** -/
+theorem peekMut_eq_spec (c : WTinyLfu κ ν) (k : κ) (w : Option ν) :
+    view (c.peekMut k w).1 = WtSpec.peekMut (view c) k w := by
+  unfold WTinyLfu.peekMut RawLru.peekMut WtSpec.peekMut view
+  cases hw : find k c.window.items with
+  | some v => cases w <;> simp
+  | none =>
+    have := C07.peekMut_eq_spec c.main k w
+    cases w <;> simp only [← this]
+
+/-- **every operation = the policy**, lists and estimator, on every well-formed cache -/
+theorem step_eq_spec (kh : κ → UInt64) (c : WTinyLfu κ ν) (o : CacheOp κ ν) (h : c.Inv) :
+    ∃ c', WTinyLfu.step kh c o = .ok c' ∧
+      (view c', c'.est) = WtSpec.stepE kh c.window.cap c.main.prob.cap c.main.prot.cap (view c, c.est) o := by
+  cases o with
+  | put k v =>
+    obtain ⟨r, c', d, hp, he, hest⟩ := put_eq_spec c kh k v h
+    refine ⟨c', by simp only [WTinyLfu.step, hp], ?_⟩
+    have hv : WtSpec.verdict kh c.est = ltOf c kh := rfl
+    simp only [WtSpec.stepE, WtSpec.step, WtSpec.estStep, hv, ← he, hest]
+  | getMut k w =>
+    obtain ⟨r, c', est', hp, hinc, hest, he⟩ := get_eq_spec c kh k w h
+    refine ⟨c', by simp only [WTinyLfu.step, hp], ?_⟩
+    simp only [WtSpec.stepE, WtSpec.step, WtSpec.estStep, ← he, hinc, hest]
+  | peekMut k w =>
+    exact ⟨_, rfl, by simp only [WtSpec.stepE, WtSpec.step, WtSpec.estStep, ← peekMut_eq_spec, peekMut_keeps_estimator]⟩
+  | remove k =>
+    exact ⟨_, rfl, by simp only [WtSpec.stepE, WtSpec.step, WtSpec.estStep, ← remove_eq_spec, remove_keeps_estimator]⟩
+  | purge =>
+    refine ⟨{ est := c.est.clear, window := { c.window with items := [] },
+              main := { prob := { c.main.prob with items := [] }, prot := { c.main.prot with items := [] } } }, ?_, rfl⟩
+    simp only [WTinyLfu.step, WTinyLfu.purge, Slru.purge, RawLru.purge_spec]
+  | read => exact ⟨c, rfl, rfl⟩
+
+/-- **refinement over every history**: from any well-formed cache (any part sizes, any estimator), any sequence of
+    public operations runs without a fault; window, probationary and protected (entry by entry, in recency order)
+    and the estimator are exactly what the W-TinyLFU policy folded over the same sequence says — the lists see the
+    estimator only through its verdict, the estimator changes only on lookups and `purge` -/
+theorem history_eq_spec (kh : κ → UInt64) (c0 : WTinyLfu κ ν) (h0 : c0.Inv) (ops : List (CacheOp κ ν)) :
+    ∃ c', runOps (WTinyLfu.step kh) c0 ops = .ok c' ∧
+      (view c', c'.est) =
+        ops.foldl (WtSpec.stepE kh c0.window.cap c0.main.prob.cap c0.main.prot.cap) (view c0, c0.est) := by
+  suffices H : ∀ (ops : List (CacheOp κ ν)) (c : WTinyLfu κ ν),
+      WTinyLfu.InvC c0.window.cap c0.main.prob.cap c0.main.prot.cap c →
+      ∃ c', runOps (WTinyLfu.step kh) c ops = .ok c' ∧
+        (view c', c'.est) = ops.foldl (WtSpec.stepE kh c0.window.cap c0.main.prob.cap c0.main.prot.cap) (view c, c.est) from
+    H ops c0 ⟨h0, rfl, rfl, rfl⟩
+  intro ops
+  induction ops with
+  | nil => intro c _; exact ⟨c, rfl, rfl⟩
+  | cons o rest ih =>
+    intro c hc
+    obtain ⟨c1, hs1, hc1⟩ := WTinyLfu.step_invC kh _ _ _ c o hc
+    obtain ⟨c1', hs1', he1⟩ := step_eq_spec kh c o hc.1
+    rw [hs1] at hs1'; injection hs1' with hs1'; subst hs1'
+    rw [hc.2.1, hc.2.2.1, hc.2.2.2] at he1
+    obtain ⟨c2, hs2, he2⟩ := ih c1 hc1
+    exact ⟨c2, by simp only [runOps, hs1, hs2], by simp only [List.foldl_cons, ← he1, he2]⟩
 end C10
